@@ -513,6 +513,10 @@ func (self Reflect) strukt(ptrVal reflect.Value) node.Node {
 				return nil, nil
 			}
 			if meta.IsList(r.Meta) {
+				if !r.New && self.isEmptyList(childVal) {
+					// a list whose last entry was deleted does not exist any more
+					return nil, nil
+				}
 				onUpdate := func(update reflect.Value) {
 					childVal.Set(update)
 				}
